@@ -177,9 +177,10 @@ func init() {
 		Required: func(string) []string {
 			return []string{"returned_normally", "chain_with_repeated_centre", "input_ring_with_<3_points", "invalid_input", "gen:motif", "gen:junk"}
 		},
-		MinNonTriv:  1000,
-		Assumptions: []string{"'time proportional to a small polynomial' is restated as logical step budgets on the kmp loops (8N^2 outer iterations, 64N^3 inner steps; N = input vertices + routed chain lengths + 8); a wall-clock watchdog only makes the run inconclusive", "recursion depth / memory are watched only through death of the worker process"},
-		Technique:   "runtime monitor: termination-mode observer with loop step budgets (hook H3) and crash attribution",
-		Watchdog:    func(t string) int { return 1800 },
+		MinNonTriv:       1000,
+		Assumptions:      []string{"'time proportional to a small polynomial' is restated as logical step budgets on the kmp loops (8N^2 outer iterations, 64N^3 inner steps; N = input vertices + routed chain lengths + 8); a wall-clock watchdog only makes the run inconclusive", "recursion depth / memory are watched only through death of the worker process"},
+		Technique:        "runtime monitor: termination-mode observer with loop step budgets (hook H3) and crash attribution",
+		FatalIsViolation: true,
+		Watchdog:         func(t string) int { return 1800 },
 	})
 }
